@@ -188,6 +188,30 @@ fn one_program(cx: &mut Ctx, i: u64) {
                         rep.exec.brief(), rep.decode.brief(), rep.m6), "program": text, "signature": format!("c05-missing:{key:016x}")}));
                 } else {
                     cx.report.count("map_missing_name", 1);
+                    // the names that ARE supplied still deliver their values: everything that
+                    // happens before the missing witness is first evaluated must be as the
+                    // reference prescribes (what the missing name holds is not judged)
+                    let mut m_ref = m.clone();
+                    m_ref.insert(ws[drop_k].0.clone(), zero_val(&ws[drop_k].1));
+                    let r = run_reference(cx, &p, &m_ref, false);
+                    let rep2 = examine_redeem(&sat, &built.commit.cmr, &cx.env, Some(&mut cx.jets), None);
+                    if let (false, Some(trace)) = (matches!(r.verdict, Err(crate::interp::Stop::Refuse(_))), &rep2.trace) {
+                        let cut = r
+                            .events
+                            .iter()
+                            .position(|e| matches!(e, crate::interp::REvent::Witness { name, .. } if *name == ws[drop_k].0))
+                            .unwrap_or(r.events.len());
+                        let n = cut.min(trace.events.len());
+                        if let Err(e) = compare_traces(&p, &r.events[..n], &trace.events[..n], None) {
+                            cx.report.violation(json!({"kind": "missing-names", "what": format!("map without `{}`: the supplied names are not delivered as prescribed: {e}", ws[drop_k].0),
+                                "case": case_json(&p, &m, false), "signature": format!("c05-missing-delivery:{key:016x}")}));
+                        } else if n < cut {
+                            cx.report.violation(json!({"kind": "missing-names", "what": format!("map without `{}`: the run stops after {n} events, the reference prescribes {cut} before the missing witness is read", ws[drop_k].0),
+                                "case": case_json(&p, &m, false), "signature": format!("c05-missing-delivery:{key:016x}")}));
+                        } else {
+                            cx.report.count("map_missing_name_prefix_events", n as u64);
+                        }
+                    }
                 }
             }
             Outcome::Err(_) => cx.report.count("map_missing_name_rejected", 1),
